@@ -2,6 +2,7 @@ package main
 
 import (
 	"math"
+	"strings"
 	"math/big"
 	"math/rand"
 	"strconv"
@@ -108,6 +109,7 @@ func c21Run(in []string) []string {
 		ExternalSelfEventCreated:  ts[5],
 		ExternalSelfEventDetected: ts[6],
 	}
+	c21SweepStats(op, peers, int64(th), ts)
 	if op == "S" || op == "SM" || op == "SX" {
 		w, err := doublesign.SyncedToEmit(s, th)
 		vu.Stat(op + ".err=" + c21ErrCode(err))
@@ -119,6 +121,63 @@ func c21Run(in []string) []string {
 	r := doublesign.DetectParallelInstance(s, th)
 	vu.Stat(op + "=" + vu.B(r))
 	return []string{vu.B(r)}
+}
+
+// c21SweepStats records which configuration classes a case reaches (evidence: input_distribution).
+func c21SweepStats(op string, peers, th int64, ts [7]time.Time) {
+	switch {
+	case peers == 0:
+		vu.Stat("sweep.peers=0")
+	case peers == 1:
+		vu.Stat("sweep.peers=1")
+	case peers == math.MaxInt64:
+		vu.Stat("sweep.peers=maxint")
+	case peers < 0:
+		vu.Stat("sweep.peers<0")
+	}
+	switch {
+	case th == 0:
+		vu.Stat("sweep.th=0")
+	case th == 1:
+		vu.Stat("sweep.th=1ns")
+	case th == math.MaxInt64:
+		vu.Stat("sweep.th=maxint64")
+	case th == math.MinInt64:
+		vu.Stat("sweep.th=minint64")
+	case th < 0:
+		vu.Stat("sweep.th<0")
+	}
+	names := []string{"now", "startup", "connected", "synced", "became", "created", "detected"}
+	now := ts[0]
+	hasMono := func(t time.Time) bool { return strings.Contains(t.String(), " m=") }
+	for i := 1; i < 7; i++ {
+		switch {
+		case ts[i].IsZero():
+			vu.Stat("sweep." + names[i] + "=zero")
+		case ts[i].Equal(now):
+			vu.Stat("sweep." + names[i] + "=now")
+		}
+		if hasMono(now) {
+			if hasMono(ts[i]) {
+				vu.Stat("sweep.mono_now_vs_mono_" + names[i])
+			} else if !ts[i].IsZero() {
+				vu.Stat("sweep.mono_now_vs_wall_" + names[i])
+			}
+		}
+	}
+	if now.IsZero() {
+		vu.Stat("sweep.now=zero")
+	}
+	if ts[1].After(now) {
+		vu.Stat("sweep.startup_after_now")
+	}
+	// the two seeded-mutation shapes
+	if ts[6].IsZero() && !ts[5].IsZero() && now.Sub(ts[5]) < time.Duration(th) && op[0] == 'S' {
+		vu.Stat("sweep.detected_zero_created_recent")
+	}
+	if ts[5].Before(ts[1]) && now.Sub(ts[5]) < time.Duration(th) && op[0] == 'S' {
+		vu.Stat("sweep.created_before_startup_and_recent")
+	}
 }
 
 var c21Big1e9 = big.NewInt(1e9)
@@ -276,6 +335,63 @@ func init() {
 		Gen: func(r *rand.Rand, n int, tier string, emit func(...string)) {
 			// the design's grid: every anchor for now x every threshold, each stamp in turn moved
 			grid := 1
+			// configuration sweep (always): every guarded stamp (and Startup) in turn at: the zero time,
+			// exactly Now (monotonic and wall-only), 1 ns before / after Now; the others long ago; peers
+			// 0/1/MaxInt; thresholds 0, 1 ns, 1 s, MaxInt64; as S and as P; plus the wall-clock twins
+			{
+				ths := []int64{0, 1, 1e9, math.MaxInt64}
+				prs := []int64{0, 1, math.MaxInt64}
+				classes := []string{"z", "m0", "w0", "m-1", "w1", "m1000000000"}
+				old := "w-" + strconv.FormatInt(1<<62, 10)
+				for which := 1; which < 7; which++ {
+					for _, cl := range classes {
+						for ti, th := range ths {
+							pr := prs[(which+ti)%3]
+							if ti == 2 {
+								pr = 1
+							}
+							t := []string{"SX", strconv.FormatInt(pr, 10), strconv.FormatInt(th, 10), "m0"}
+							for j := 1; j < 7; j++ {
+								if j == which {
+									t = append(t, cl)
+								} else {
+									t = append(t, old)
+								}
+							}
+							emit(t...)
+							t2 := append([]string{}, t...)
+							t2[0] = "PX"
+							emit(t2...)
+						}
+					}
+				}
+				// all stamps equal to Now / all zero; Now itself the zero time (wall cases)
+				for _, th := range ths {
+					emit("SX", "1", strconv.FormatInt(th, 10), "m0", "m0", "m0", "m0", "m0", "m0", "m0")
+					emit("SX", "1", strconv.FormatInt(th, 10), "m0", "z", "z", "z", "z", "z", "z")
+					emit("SX", "1", strconv.FormatInt(th, 10), "m0", "z", "w-5", "w-5", "z", "z", "z")
+					var eq, zr [7][2]int64
+					for j := range eq {
+						eq[j] = c21Nows[0]
+					}
+					c21Emit(emit, "S", 1, th, eq)
+					c21Emit(emit, "P", 1, th, eq)
+					c21Emit(emit, "S", 1, th, zr)
+					zr[3] = [2]int64{0, 1}
+					c21Emit(emit, "S", 1, th, zr)
+					c21Emit(emit, "P", 1, th, zr)
+				}
+				// Startup after Now; created before / at / after Startup, young and old (P and S)
+				for _, th := range []int64{1, 1e9, 30 * 60 * 1e9} {
+					for _, so := range []string{"m5", "w5", "m-500000000", "m-2000000000000"} {
+						for _, co := range []string{"m-400000000", "m-600000000", "w-400000000", "m6", "m-1900000000000", "z"} {
+							emit("PX", "1", strconv.FormatInt(th, 10), "m0", so, old, old, old, co, old)
+							emit("SX", "1", strconv.FormatInt(th, 10), "m0", so, old, old, old, co, old)
+							emit("SX", "1", strconv.FormatInt(th, 10), "m0", so, old, old, old, co, "z")
+						}
+					}
+				}
+			}
 			type cs struct {
 				class int
 				sm    int64
